@@ -30,7 +30,13 @@ for pid in sys.argv[1:]:
                "check_exit": int(rc.group(1)) if rc else None, "alarm_keys": keys[:10], "valid_refactoring": bool(valid),
                "false_alarm": bool(valid and rc and rc.group(1) != "0")}
         print(json.dumps(res))
-        d = V / "refactors" / ("%s-%d" % (pid, n))
+        # first free (or identical) slot under refactors/
+        k = 1
+        while True:
+            d = V / "refactors" / ("%s-%d" % (pid, k))
+            if not d.exists() or (d / "ref.diff").read_text() == patch.read_text():
+                break
+            k += 1
         if valid:
             d.mkdir(parents=True, exist_ok=True)
             shutil.copy(patch, d / "ref.diff")
